@@ -11,7 +11,8 @@ EXTENDS Naturals, Sequences, TLC
 CONSTANTS Families,   \* subset of {"normal", "mixnormal", "bernoulli", "weibull"}  ("mixnormal": the Gaussian component of one cluster
                       \* of the mixture prior - the per-cluster regularity of the mixture model)
           Censorings, \* subset of {"censored", "observed"}
-          Positions,  \* event relative to the individual's reference time: subset of {"before", "at", "after"}
+          Positions,  \* event relative to the individual's reference time: subset of {"before", "just_before", "at", "just_after",
+                      \* "after"}  ("just_*": by 2^-15, far below any rounding band one might be tempted to treat as "at")
           Shapes,     \* Weibull shape classes: subset of {"lt1", "eq1", "gt1", "eq3"}
           Sources,    \* subset of BOOLEAN : reparametrized scale with / without space shifts
           Outcomes,   \* Bernoulli: subset of {"y0", "y1"}
@@ -24,6 +25,7 @@ Init0 == /\ fam \in Families /\ cens \in Censorings /\ pos \in Positions /\ shp 
         /\ yb \in Outcomes /\ pb \in Probs
         \* canonical values for the dimensions a family does not use
         /\ (fam # "weibull" => (cens = "observed" /\ pos = "after" /\ shp = "gt1" /\ src = FALSE))
+        /\ (pos \in {"just_before", "just_after"} => shp \in {"lt1", "gt1"})     \* (the close positions on two shape classes)
         /\ (fam # "bernoulli" => (yb = "y1" /\ pb = "interior"))
         /\ (fam = "bernoulli" => ~(yb = "y1" /\ pb = "sat0") /\ ~(yb = "y0" /\ pb = "sat1"))   \* impossible outcomes are out of scope
 V(n) == <<"var", n>>
@@ -51,8 +53,9 @@ NuRep == IF src THEN Mul(V("nu"), Exp(Neg(Add(V("xi"), Div(V("shift"), V("rho"))
 TRep == Sub(V("t"), V("tau"))
 Survival == Pow(Div(TRep, NuRep), V("rho"))                                   \* -log S(t') for t' > 0
 LogHazard == Add(Log(Div(V("rho"), NuRep)), Mul(Sub(V("rho"), Num(1, 1)), Log(Div(TRep, NuRep))))
-WeibullKind == IF cens = "censored" THEN (IF pos = "after" THEN "survival" ELSE "zero")
-               ELSE (IF pos = "after" THEN "survival_plus_hazard" ELSE "penalty")
+IsAfter == pos \in {"after", "just_after"}
+WeibullKind == IF cens = "censored" THEN (IF IsAfter THEN "survival" ELSE "zero")
+               ELSE (IF IsAfter THEN "survival_plus_hazard" ELSE "penalty")
 WeibullNll == CASE WeibullKind = "zero" -> Num(0, 1)                          \* censored at / before the reference time: S = 1
                 [] WeibullKind = "survival" -> Survival
                 [] WeibullKind = "survival_plus_hazard" -> Sub(Survival, LogHazard)
@@ -92,5 +95,7 @@ Spec == Init /\ [][Next]_vars
 \* a censored individual contributes only its survival term; an observed event adds the log-hazard
 CensoredOnlySurvival == (fam = "weibull" /\ cens = "censored") => WeibullKind \in {"survival", "zero"}
 \* an event placed at or before the reference time: prohibitive finite penalty when observed, never NaN / infinity
-Finite == (fam = "weibull" /\ pos # "after") => WeibullKind \in {"penalty", "zero"}
+Finite == (fam = "weibull" /\ ~IsAfter) => WeibullKind \in {"penalty", "zero"}
+\* however close to the reference time, an event strictly after it is an ordinary event
+CloseIsOrdinary == (fam = "weibull" /\ pos = "just_after") => WeibullKind \in {"survival", "survival_plus_hazard"}
 =============================================================================
